@@ -989,7 +989,8 @@ theorem setupFields_valid (S : Spec) (req : Req) (cleaned : Bool) (loadAB : List
   simp only [Bool.and_eq_true] at hv
   obtain ⟨⟨⟨hv1, hv2⟩, hv3⟩, hv4⟩ := hv
   have hv1' : ∀ n ∈ fields0 S req cleaned haloLc, n ∈ names S.user_dt ∨
-      (cleaned = true ∧ n ∈ names S.clean_dt_progen) ∨ (haloLc = true ∧ n ∈ names S.halo_lc_dt) := by
+      (cleaned = true ∧ n ∈ names S.clean_dt_progen) ∨
+      (haloLc = true ∧ (n ∈ names S.halo_lc_dt ∨ lcBad S n = true)) := by
     intro n hn
     have := List.all_eq_true.mp hv1 n hn
     simpa [or_assoc] using this
@@ -1144,10 +1145,11 @@ theorem setupFields_valid (S : Spec) (req : Req) (cleaned : Bool) (loadAB : List
     obtain ⟨hysp, hgood⟩ := pmem y hy
     obtain ⟨hyl, hncl, _⟩ := sp1 y hysp
     have hdecl : y ∈ names S.user_dt ∨ (haloLc = true ∧ y ∈ names S.halo_lc_dt) := by
-      rcases hv1' y hyl with h | ⟨hc, h⟩ | h
+      rcases hv1' y hyl with h | ⟨hc, h⟩ | ⟨hl, h | h⟩
       · exact Or.inl h
       · exact absurd h (hncl hc)
-      · exact Or.inr h
+      · exact Or.inr ⟨hl, h⟩
+      · rw [hgood hl] at h; cases h
     constructor
     · unfold kindCols
       cases hl : haloLc with
@@ -1336,7 +1338,9 @@ theorem readHaloInfo_ok (S : Spec) (O : ValOps V) (hwf : wfFull S = true)
 /- The requests the real constructor rejects (each confirmed on the real class, /repo at 3aa904d, with a
    catgen catalog; the model rejects the same ones and the correspondence checks this agreement on every run):
      * a name that is not a declared column of the catalog kind — `fields=['foo']`, `fields=['N_total']` with
-       `cleaned=False`, `fields=['v_L2com_mainprog']` on a light cone: `KeyError "Field named … not found."`;
+       `cleaned=False`, `fields=['v_L2com_mainprog']` or `['fooL2']` on a light cone: `KeyError "Field named … not
+       found."` (on a light cone any name without 'L2' that is not a light-cone column — `'x_com'`, `'haloindex'`,
+       even the misspelling `'foo'` — is dropped silently and is therefore accepted);
      * cleaned catalogs: a cleaning column listed twice — `fields=['haloindex','haloindex']`,
        `['N_total','N_total']`, `['npstartA_merge','npstartA_merge']`: only one occurrence is moved to
        `cleaned_fields`, the other is looked up in `user_dt`: `KeyError "Field named 'haloindex' not found."`;
